@@ -33,7 +33,7 @@ MANIFEST = {
     "note": "Corpus plans x all coordinates; cause ordering is taken from the totally ordered log.",
     "design_ref": "3 (C02)",
 }
-PLANS_Q = ["scan", "custom", "neverclose", "clearcp", "two_runs", "rw_fail", "nested"]
+PLANS_Q = ["scan", "custom", "neverclose", "clearcp", "two_runs", "rw_fail", "nested", "cleanup_fails"]
 PLANS_T = PLANS_Q + ["count", "grid", "fly", "list_scan", "rel_scan"]
 SHARD_TIMEOUT = {"quick": 900, "thorough": 3600}
 worker_init = sweepcheck.worker_init
@@ -43,7 +43,8 @@ EXPECT = {"abort": "abort", "halt": "abort", "stop": "success", "failedpause": "
 def gen_cases(tier, seed):
     cases = sweepcheck.gen_cases(tier, seed, PLANS_Q, PLANS_T, ["abort", "stop", "halt", "pause", "suspend"])
     for p in (PLANS_Q if tier == "quick" else PLANS_T):
-        cases.append({"plan": p, "faults": True, "seed": seed})
+        if p != "cleanup_fails":   # (its cleanup replaces every error by its own: device faults are not what the call raises)
+            cases.append({"plan": p, "faults": True, "seed": seed})
     return cases
 
 
@@ -96,8 +97,12 @@ def judge(ex, ref, case):
     # plan error of the corpus (rw_fail) is a cause too: detect through the exception the call raised
     final_exc = next((r[1] for n, r in ex.calls if r[0] == "exc" and not isinstance(r[1], RunEngineInterrupted)), None)
     kinds = {c[1] for c in causes}
-    if len(kinds) > 1:
-        return [R("skip", key0, False, detail=f"ambiguous causes {sorted(kinds)}")]
+    if len(kinds) > 1 or (causes and final_exc is not None and kinds <= {"abort", "stop", "halt"}):
+        if final_exc is None:
+            return [R("skip", key0, False, detail=f"ambiguous causes {sorted(kinds)}")]
+        # a termination request AND an error the plan did not handle (e.g. its cleanup raised): the call re-raises that
+        # error, and a RunStop that says 'fail' must give ITS text as the reason (not the abort reason)
+        causes = []
     if final_exc is not None and not causes:
         # a plan error (or an error produced by the engine while replaying): the cause is that exception; it is not
         # visible in the log before it surfaces, so only RunStops carrying 'fail' are compared for their reason
@@ -207,4 +212,4 @@ def run_case(case):
             for mode in ["raise"] + (["fail-now", "fail-later"] if op in ("set", "trigger", "kickoff", "complete") else []):
                 out += judge(execute({"plan": case["plan"], "faults": [[[dev, op, n], mode]], "decisions": []}), ref, case)
         return out
-    return sweepcheck.run_case(case, judge, decisions=("abort", "stop", "halt"))
+    return sweepcheck.run_case(case, judge, decisions=("abort", "stop", "halt"), inj_params={"abort": {"reason": "beam dump"}})
